@@ -347,7 +347,7 @@ class Contract:
                  yield_checks=None, cases=None, result=None, callees=(), name=None, setup=None, replay=None,
                  replay_args=None, assumptions=(), self_obj=None, timeout_ms=None, crosscheck=None,
                  call_raises_exact=False, exit_checks=None, frame_locals=False, pre_state=None,
-                 replay_ensures=None, bounded=None, tiers=None, max_paths=4000, block=None, harness=None):
+                 replay_ensures=None, bounded=None, tiers=None, max_paths=4000, block=None, harness=None, max_explore_s=None):
         self.prop = prop
         self.target = target
         self.relpath, self.qualname = target.split('::')
@@ -378,6 +378,7 @@ class Contract:
         self.native_env = None  # {name: python object}: native counterparts of the /verif helpers a harness uses (replay)
         self.block = block      # fn(FunctionDef) -> list of statements: verify a block inside a large function
         self.max_paths = max_paths
+        self.max_explore_s = max_explore_s
         self.bounded = bounded     # text of the bound when this unit is a bounded stand-in (not counted as proved)
 
     @property
@@ -503,6 +504,8 @@ class Verifier:
         schedule = []
         eng.alts = []
         npaths = 0
+        incomplete = None
+        t_explore = time.time()
         completed = 0
         requires_sat = False
         canary_refuted = False
@@ -622,7 +625,12 @@ class Verifier:
             res['trusted'] = sorted(set(res['trusted']) | eng.trusted_used)
             res['contracts_used'] = sorted(set(res['contracts_used']) | eng.used_contracts)
             if npaths > c.max_paths:
-                raise Unsupported('path explosion (>%d paths) in %s' % (c.max_paths, c.uid))
+                incomplete = 'path explosion (>%d paths) in %s' % (c.max_paths, c.uid)
+                break
+            budget = c.max_explore_s or (420 if self.tier == 'quick' else 1800)
+            if time.time() - t_explore > budget:
+                incomplete = 'exploration budget (%d s, %d paths so far) exhausted in %s' % (budget, npaths, c.uid)
+                break
             if not eng.next_schedule():
                 break
             schedule = eng.schedule
@@ -679,6 +687,16 @@ class Verifier:
                                        'kind': insts[0].kind, 'result': verdict, 'backend': '+'.join(sorted(backend)) or 'simplify',
                                        'solver_s': round(secs, 3), 'instances': len(insts), 'cex': cex,
                                        'clause': name})
+        if incomplete:
+            # not every path was explored: a refutation found on an explored path stands (its counter-model is replayed like
+            # any other), nothing else is decided
+            mine = [o for o in res['obligations'] if o.get('clause') is not None and o['id'].startswith(c.uid + '/')]
+            if not any(o['result'] in ('refuted', 'candidate') for o in mine):
+                raise Unsupported(incomplete)
+            for o in mine:
+                if o['result'] == 'discharged':
+                    o['result'] = 'unknown'
+                    o['note'] = 'exploration incomplete: ' + incomplete
         # canary: a false postcondition must be refuted on a feasible completed path
         can = 'failed'
         if completed > 0:
@@ -885,6 +903,11 @@ def replay_counterexample(c, ob_rec, _alt=False):
         out = call_real(c, inputs)
     except Exception as e:
         return {'status': 'no-input', 'note': 'could not build real inputs: %s' % e, 'trace': traceback.format_exc()}
+    if out[0] == 'raise' and 'SimpleNamespace' in str(out[2]):
+        # the generic replay stands in plain attribute records for objects; code that calls a method on one fails on the
+        # stand-in, not on the real code: that is no replay at all
+        return {'status': 'no-input', 'inputs': jsonable(inputs),
+                'note': 'generic replay cannot build this object (%s): counter-model reported without a real run' % out[2]}
     observed = {'outcome': out[0], 'value': jsonable(to_engine_value(out[1])) if out[0] == 'return' else out[1:]}
     clause = ob_rec.get('clause', '')
     failed = []
